@@ -313,8 +313,13 @@ int mod_deregister(m_mod_t **mod, bool from_user) {
         ret = m_map_remove(c->modules, m->name);
         
         if (ret == 0) {
-            /* Stop module */
-            stop(m, true);
+            /*
+             * Stop module; if its own on_stop() started it again, stop it again:
+             * it is leaving for good and must not become a zombie while RUNNING.
+             */
+            do {
+                stop(m, true);
+            } while (m_mod_is(m, M_MOD_RUNNING | M_MOD_PAUSED));
             m->state = M_MOD_ZOMBIE;
             
             /* Free FS internal data */
